@@ -37,6 +37,7 @@ type FuncContract struct {
 	NoReturn     bool
 	NoPanicProps []string
 	NoFrame      bool
+	DeadReturns  map[int]bool // return sites declared unreachable under the preconditions
 	SigReadProps []string
 	Where        string
 	Bounded      string
@@ -98,7 +99,7 @@ var labelRe = regexp.MustCompile(`^([a-zA-Z_][a-zA-Z0-9_.\-]*):\s+`)
 
 var clauseKeywords = map[string]bool{"func": true, "pred": true, "specfunc": true, "axiom": true, "lemma": true, "ghost": true,
 	"requires": true, "ensures": true, "assumes": true, "presumes": true, "modifies": true, "let": true, "loop": true, "trusted": true, "inline": true,
-	"noreturn": true, "assert": true, "bounded": true, "nopanic": true, "noframe": true, "sigreads": true}
+	"noreturn": true, "assert": true, "bounded": true, "nopanic": true, "noframe": true, "sigreads": true, "deadreturn": true}
 
 // loadContractFile parses one contract file. pkg is the package name used to qualify
 // unqualified function keys ("" for spec files whose keys are fully qualified).
@@ -298,6 +299,15 @@ func (cs *Contracts) loadContractText(path, pkg, text string) error {
 			cur.NoFrame = true
 		case "sigreads":
 			cur.SigReadProps = props
+		case "deadreturn":
+			if cur.DeadReturns == nil {
+				cur.DeadReturns = map[int]bool{}
+			}
+			for _, f := range strings.Fields(rest) {
+				if n, err := strconv.Atoi(f); err == nil {
+					cur.DeadReturns[n] = true
+				}
+			}
 		case "noreturn":
 			cur.NoReturn = true
 		case "nopanic":
